@@ -85,13 +85,12 @@ Cmp(c, x, y) ==
 SortedBy(s, c) == \A i \in 1..Len(s) - 1 : Cmp(c, s[i], s[i+1]) <= 0
 Distinct(s, c) == \A i \in 1..Len(s) : \A j \in i+1..Len(s) : Cmp(c, s[i], s[j]) # 0
 
-RECURSIVE InsertBefore(_, _, _)
-InsertBefore(x, t, c) ==
-  IF t = <<>> THEN <<x>>
-  ELSE IF Cmp(c, x, t[1]) <= 0 THEN <<x>> \o t
-  ELSE <<t[1]>> \o InsertBefore(x, Tail(t), c)
-RECURSIVE StableSort(_, _)
-StableSort(s, c) == IF s = <<>> THEN <<>> ELSE InsertBefore(s[1], StableSort(Tail(s), c), c)
+\* stable sort without recursion: the rank of element i is the number of
+\* elements that must precede it
+StableSort(s, c) ==
+  LET n == Len(s)
+      rank == [i \in 1..n |-> Cardinality({j \in 1..n : Cmp(c, s[j], s[i]) < 0 \/ (Cmp(c, s[j], s[i]) = 0 /\ j < i)}) + 1]
+  IN [p \in 1..n |-> s[CHOOSE i \in 1..n : rank[i] = p]]
 
 RECURSIVE Concat(_)
 Concat(ss) == IF ss = <<>> THEN <<>> ELSE ss[1] \o Concat(Tail(ss))
@@ -539,46 +538,75 @@ Mode(seq) == IF seq.ex THEN "exact" ELSE IF seq.by # NoCmp THEN "cls" ELSE "bag"
 
 \* ================================================================ the scan as a state machine
 VARIABLES
+  phase,                   \* "pick" (case chosen) -> "run" (derived values computed, Pull steps)
   lay, desc, prog, nleg,   \* the case (constant along a behaviour)
-  plan, meta,              \* PlanOf(prog, desc), Metas(lay, desc)
+  plan, meta, rows,        \* PlanOf(prog, desc), Metas(lay, desc), ObjRows(lay, desc)
+  seqres,                  \* the sequential (parallelism 1) result of the case
   lo,                      \* Lister: objects not yet handed out (l.objects), pruned ones removed
-  lorder,                  \* the Lister order chosen at initObjectScan
+  lorder,                  \* the Lister order fixed at initObjectScan
   stash, smin, smax,       \* Slicer: s.objects, s.min, s.max
   parts,                   \* parts[l]: partitions (sequences of object ids) received by leg l
   done,                    \* done[l]: leg l stopped pulling (its lifted head is satisfied)
   served                   \* history: <<leg, objects pulled from the Lister during that Pull>>
 
-vars == <<lay, desc, prog, nleg, plan, meta, lo, lorder, stash, smin, smax, parts, done, served>>
+vars == <<phase, lay, desc, prog, nleg, plan, meta, rows, seqres, lo, lorder, stash, smin, smax, parts, done, served>>
 
-Rows == ObjRows(lay, desc)
 Exhausted == lo = <<>> /\ stash = <<>>
 LegSet == 1..nleg
 
 \* leg operators before a lifted head (the head counts their output)
-LegHead == IF plan.legs # <<>> /\ Kind(plan.legs[Len(plan.legs)].op) = "head" THEN Limit(plan.legs[Len(plan.legs)].op) ELSE 0
+LegHeadOf(pl) == IF pl.legs # <<>> /\ Kind(pl.legs[Len(pl.legs)].op) = "head" THEN Limit(pl.legs[Len(pl.legs)].op) ELSE 0
+LegHead == LegHeadOf(plan)
 LegPre == IF LegHead > 0 THEN SubSeq(plan.legs, 1, Len(plan.legs) - 1) ELSE plan.legs
-LegInput(ps) == ScanStream(Rows, ps, desc, plan.filter, plan.slicer)
+LegInput(ps) == ScanStream(rows, ps, desc, plan.filter, plan.slicer)
 LegOut(ps) == ApplyOps(plan.legs, LegInput(ps))
 
-Terminal == Exhausted \/ \A l \in LegSet : done[l]
+Terminal == phase = "run" /\ (Exhausted \/ \A l \in LegSet : done[l])
+
+\* lister.go initObjectScan: stable sort of the snapshot's objects.  Objects with
+\* identical [min,max] tie (the snapshot is a Go map, so their relative order is
+\* arbitrary); the model takes load order for them -- they always share a partition.
+RECURSIVE InsertObj(_, _, _, _)
+InsertObj(o, t, m, d) ==
+  IF t = <<>> THEN <<o>>
+  ELSE IF ListerLess(d, m[o], m[t[1]]) THEN <<o>> \o t
+  ELSE <<t[1]>> \o InsertObj(o, Tail(t), m, d)
+RECURSIVE ListerSort(_, _, _)
+ListerSort(n, m, d) == IF n = 0 THEN <<>> ELSE InsertObj(n, ListerSort(n - 1, m, d), m, d)
+\* (InsertObj places o before the first strictly greater element, i.e. after its ties: stable)
+
+SeqResultOf(pl, rw, m, lor, d, pg) ==
+  LET ps == IF pl.slicer THEN SlicerAll(m, lor, <<>>, NONE, NONE) ELSE [i \in 1..Len(lor) |-> <<lor[i]>>]
+      ops == Expand(pg)
+  IN ApplyOps(Plain(SubSeq(ops, Len(pl.filter) + 1, Len(ops))), ScanStream(rw, ps, d, pl.filter, pl.slicer))
 
 Init ==
+  /\ phase = "pick"
   /\ lay \in LayoutSet
   /\ desc \in {d = "desc" : d \in Dirs}
   /\ prog \in Progs
   /\ nleg \in LegCounts
-  /\ plan = PlanOf(prog, desc)
-  /\ meta = Metas(lay, desc)
-  /\ lorder \in {SelectSeq(p, LAMBDA o : ~Pruned(plan.filter, meta[o])) : p \in ListerOrders(meta, desc)}
-  /\ lo = lorder
+  /\ plan = <<>> /\ meta = <<>> /\ rows = <<>> /\ seqres = <<>> /\ lorder = <<>> /\ lo = <<>>
   /\ stash = <<>> /\ smin = NONE /\ smax = NONE
-  /\ parts = [l \in LegSet |-> <<>>]
-  /\ done = [l \in LegSet |-> FALSE]
-  /\ served = <<>>
+  /\ parts = <<>> /\ done = <<>> /\ served = <<>>
+
+Setup ==
+  /\ phase = "pick"
+  /\ phase' = "run"
+  /\ LET pl == PlanOf(prog, desc)
+         m  == Metas(lay, desc)
+         rw == ObjRows(lay, desc)
+         lor == SelectSeq(ListerSort(Len(lay), m, desc), LAMBDA o : ~Pruned(pl.filter, m[o]))
+     IN /\ plan' = pl /\ meta' = m /\ rows' = rw /\ lorder' = lor /\ lo' = lor
+        /\ seqres' = SeqResultOf(pl, rw, m, lor, desc, prog)
+  /\ parts' = [l \in LegSet |-> <<>>]
+  /\ done' = [l \in LegSet |-> FALSE]
+  /\ UNCHANGED <<lay, desc, prog, nleg, stash, smin, smax, served>>
 
 \* One Lister.Pull / Slicer.Pull critical section by leg l.  Legs are
 \* interchangeable copies: leg l pulls for the first time only after leg l-1.
 Pull(l) ==
+  /\ phase = "run"
   /\ ~Terminal
   /\ ~done[l]
   /\ IF l = 1 THEN TRUE ELSE parts[l-1] # <<>>
@@ -589,16 +617,12 @@ Pull(l) ==
         /\ parts' = [parts EXCEPT ![l] = np]
         /\ served' = Append(served, <<l, r.pulled>>)
         /\ done' = [done EXCEPT ![l] = LegHead > 0 /\ Len(ApplyOps(LegPre, LegInput(np)).s) >= LegHead]
-  /\ UNCHANGED <<lay, desc, prog, nleg, plan, meta, lorder>>
+  /\ UNCHANGED <<phase, lay, desc, prog, nleg, plan, meta, rows, seqres, lorder>>
 
-Next == \E l \in LegSet : Pull(l)
+Next == Setup \/ \E l \in LegSet : Pull(l)
 Spec == Init /\ [][Next]_vars
 
 \* ---------------------------------------------------------------- results
-SeqResult ==
-  LET ps == IF plan.slicer THEN SlicerAll(meta, lorder, <<>>, NONE, NONE) ELSE [i \in 1..Len(lorder) |-> <<lorder[i]>>]
-  IN ApplyOps(Plain(SubSeq(Expand(prog), Len(plan.filter) + 1, Len(Expand(prog)))), ScanStream(Rows, ps, desc, plan.filter, plan.slicer))
-
 ParResult ==
   LET outs == [l \in LegSet |-> LegOut(parts[l])]
       fan  == IF plan.fan = "merge" THEN MergeStreams(outs, plan.mc) ELSE CombineStreams(outs)
@@ -620,7 +644,7 @@ Taint ==
 AllObjs == {lorder[i] : i \in 1..Len(lorder)}
 Handed == UNION {UNION {SeqRange(parts[l][i]) : i \in 1..Len(parts[l])} : l \in LegSet}
 \* every object is in exactly one place: still listed, stashed, or in exactly one partition of one leg
-HandedOnce ==
+HandedOnce == phase = "run" =>
   /\ Handed \cup SeqRange(stash) \cup SeqRange(lo) = AllObjs
   /\ Len(lo) + Len(stash) + SumSeq(Concat([l \in LegSet |-> [i \in 1..Len(parts[l]) |-> Len(parts[l][i])]])) = Len(lorder)
 
@@ -634,9 +658,9 @@ PartitionsOrdered ==
      ELSE CmpV(Span(AllParts[i]).mx, Span(AllParts[i+1]).mn, TRUE) < 0
 \* the sequential scan through the Slicer is the pool in ImportComparator order
 SlicerSorted ==
-  plan.slicer => Concat([i \in 1..Len(AllParts) |-> PartRows(Rows, AllParts[i], desc, <<>>)])
-                   = StableSort(Concat([i \in 1..Len(lorder) |-> Rows[lorder[i]]]), PoolC(desc))
-InitInv == served = <<>> => PartitionsOrdered /\ SlicerSorted
+  plan.slicer => Concat([i \in 1..Len(AllParts) |-> PartRows(rows, AllParts[i], desc, <<>>)])
+                   = StableSort(Concat([i \in 1..Len(lorder) |-> rows[lorder[i]]]), PoolC(desc))
+InitInv == (phase = "run" /\ served = <<>>) => PartitionsOrdered /\ SlicerSorted
 
 \* partial aggregation rows are combined exactly once: for a split count the
 \* final counts add up to the number of rows the legs scanned
@@ -648,11 +672,10 @@ CountConserved ==
 
 CaseJson(seq, par) ==
   LET rowj(r) == [f \in {g \in Fields : r[g].t # "abs"} |-> r[f]]
-      rows == Rows
   IN [lay |-> [i \in 1..Len(lay) |-> [j \in 1..Len(rows[i]) |-> rowj(rows[i][j])]],
       loads |-> [i \in 1..Len(lay) |-> Len(lay[i])],
       desc |-> desc, prog |-> prog, n |-> nleg, plan |-> PlanText(plan),
-      lorder |-> lorder, tieorders |-> Cardinality(ListerOrders(meta, desc)),
+      lorder |-> lorder, 
       served |-> [i \in 1..Len(served) |-> [leg |-> served[i][1], objs |-> served[i][2]]],
       parts |-> parts,
       seq |-> [rows |-> [i \in 1..Len(seq.s) |-> rowj(seq.s[i])], mode |-> Mode(seq), det |-> seq.det,
@@ -667,7 +690,7 @@ Hash == Len(served) + SumSeq([i \in 1..Len(served) |-> served[i][1] * i]) + Len(
 \* counterexample is visible, then the property.
 ResultOK ==
   Terminal =>
-    LET seq == SeqResult  par == ParResult
+    LET seq == seqres  par == ParResult
         emit == EmitMod > 0 /\ Hash % EmitMod = EmitRem
     IN /\ emit => PrintT(ToJson(CaseJson(seq, par)))
        /\ (seq.det /\ Taint = {}) => (par.det /\ Equiv(par, seq))
